@@ -616,6 +616,12 @@ func (g *G) tryStmt(sc scopeInfo) {
 	in.inTry++
 	g.act("try")
 	g.list(in, g.O.MaxStmts-1)
+	// C12 worlds: some try bodies really fail (and are caught), so that their catch bodies run and
+	// can hold failure sites - a catch body is outside the try it belongs to
+	failsForReal := g.O.Sites && g.T.Choose(2) == 1
+	if failsForReal {
+		g.act("zzNopeInsideTry")
+	}
 	cb := sc.child("catch")
 	switch g.T.Choose(3) {
 	case 1:
@@ -633,7 +639,15 @@ func (g *G) tryStmt(sc scopeInfo) {
 
 // catchProbe: a catch body may itself fail (a second fault in the same execution).
 func (g *G) catchProbe(sc scopeInfo) {
-	if g.probesOn && !g.O.Sites && g.T.Choose(2) == 1 {
+	if g.O.Sites {
+		if sc.inTry == 0 && g.T.Choose(2) == 1 {
+			id := len(g.W.Probes) + 1
+			g.W.Probes = append(g.W.Probes, ProbeSite{ID: id, File: g.f.path, Line: g.f.line + 1, Encl: sc.encl})
+			g.emit(SitePlaceholder(id))
+		}
+		return
+	}
+	if g.probesOn && g.T.Choose(2) == 1 {
 		g.act(g.probeExpr(sc, false))
 		g.text()
 	}
